@@ -1,4 +1,4 @@
-package srgb
+package adobergb
 
 import (
 	"image/color"
